@@ -478,8 +478,11 @@ def definitely_init(body, unwind=False):
         s = set(s)
         k = t["k"]
         if k == "call":
-            for l in _moved_locals_in_operands(t["args"]):
-                s.discard(l)
+            if not t.get("inlined_future"):
+                # (the arguments of an `async fn` helper whose body was inlined at its await stay with the caller: the inlined
+                # body uses them in place and drops them where the helper did)
+                for l in _moved_locals_in_operands(t["args"]):
+                    s.discard(l)
             if succ == t["target"] and not t["dest"]["p"]:
                 s.add(t["dest"]["l"])
         elif k == "drop":
